@@ -1,3 +1,4 @@
 import MpfVerif.DriverLoop
-/-! Driver of the C07 model (stub until the model exists): answers bad-op to everything. -/
-def main : IO UInt32 := MpfVerif.runDriver (fun (s : Unit) _ => (s, "bad-op")) ()
+import MpfVerif.Model.Mode
+/-! Driver of the C07 model (mode lifecycle, active list, registries). -/
+def main : IO UInt32 := MpfVerif.runDriver MpfVerif.Mode.driverStep MpfVerif.Mode.dinit
